@@ -297,9 +297,13 @@ def _names(ctx, index):
     #     Name target — not `<t>.value.id`, the owner of an attribute target) is the receiver of .lstrip("*")
     f = index.func("cdd.class_.parse.class_")
     par = f.mod.parents
+    from ..core import RefGraph as _RG
+    from ..region import Region as _Region
+
+    # in the class parser itself or in a private helper it dispatches the body statements to
     reads = [
         a
-        for a in iter_own(f.node)
+        for _g, a in _Region(index, _RG(index), f, allow_passed=True).nodes()
         if isinstance(a, ast.Attribute) and a.attr == "id" and isinstance(a.ctx, ast.Load) and not (isinstance(a.value, ast.Attribute) and a.value.attr == "value")
     ]
     ctx.need(len(reads) >= 1, "the class parser no longer reads assignment target identifiers ({} reads found)".format(len(reads)))
